@@ -106,7 +106,7 @@ def propose(w: S.SWorld, rng: random.Random, prof: Profile):
         cands.append((W["effdl"], (S.EFFDL, t, 0, 0)))
     for (c, ident) in w.enabled_env():
         cands.append((W["run"], (c, ident, 0, 0)))
-    nt = w.loop.next_timer()
+    nt = w.loop.next_timer() if hasattr(w.loop, "next_timer") else None
     if nt is not None and nt != math.inf:
         cands.append((W["tick"], (S.TICK, max(int(nt - w.loop.time()), 0), 0, 0)))
     cands.append((W["tick"] * 0.15, (S.TICK, 1, 0, 0)))
